@@ -236,32 +236,42 @@ pub fn k_exact(case: &Case) -> Outcome {
 // kind "ops" (C05): exact, input-independent operation counts of the portable planned transform
 
 pub fn k_ops(case: &Case) -> Outcome {
+    // p[0] = 1: the 256-byte counting element
+    if case.pget(0) == 1 {
+        ops_generic::<CntBig>(case)
+    } else {
+        ops_generic::<Cnt>(case)
+    }
+}
+fn ops_generic<C: Counting>(case: &Case) -> Outcome {
     let n = case.n;
     if n < 2 {
         return Outcome::skip("n<2");
     }
-    if FftPlannerAvx::<Cnt>::new().is_ok() || FftPlannerSse::<Cnt>::new().is_ok() {
+    if FftPlannerAvx::<C>::new().is_ok() || FftPlannerSse::<C>::new().is_ok() {
         return Outcome::bad("a SIMD planner accepted the operation-counting element type");
     }
-    let fft = match obtain_g::<Cnt>(case) {
+    let fft = match obtain_g::<C>(case) {
         Ok(f) => f,
         Err(o) => return o,
     };
-    let zero = Complex { re: Cnt(0.0), im: Cnt(0.0) };
+    let zero = Complex { re: C::mk(0.0), im: C::mk(0.0) };
     let mut st = Stream(mix(case.input.seed, n as u64));
-    let inputs: [Vec<Complex<Cnt>>; 3] = [
+    let inputs: [Vec<Complex<C>>; 3] = [
         vec![zero; n],
-        (0..n).map(|_| Complex { re: Cnt(st.sym()), im: Cnt(st.sym()) }).collect(),
+        (0..n).map(|_| Complex { re: C::mk(st.sym()), im: C::mk(st.sym()) }).collect(),
         (0..n)
             .map(|j| {
                 let e = if j % 3 == 0 { 1e150 } else if j % 3 == 1 { 1e-150 } else { -3.0 };
-                Complex { re: Cnt(e), im: Cnt(-e * 0.5) }
+                Complex { re: C::mk(e), im: C::mk(-e * 0.5) }
             })
             .collect(),
     ];
     let limit = 64.0 * n as f64 * (n as f64).log2();
     let mut first: Option<[u64; 6]> = None;
-    for inp in inputs.iter() {
+    // big lengths / fat elements: two inputs are enough to see input dependence
+    let take = if n > 1 << 15 || case.pget(0) == 1 { 2 } else { 3 };
+    for inp in inputs.iter().take(take) {
         let mut data = inp.clone();
         let mut out = if result_in_out(case.entry) { vec![zero; n] } else { vec![] };
         let mut scratch = vec![zero; adv_scratch(&*fft, case.entry)];
@@ -286,12 +296,12 @@ pub fn k_ops(case: &Case) -> Outcome {
     let ops = (c[0] + c[1] + c[2]) as f64;
     if ops > limit {
         return Outcome::bad(format!(
-            "portable transform of length {} performs {} additions/subtractions/multiplications per chunk via {:?}, more than 64*n*log2(n) = {:.0}",
-            n, ops, case.entry, limit
+            "portable transform of length {} ({}) performs {} additions/subtractions/multiplications per chunk via {:?}, more than 64*n*log2(n) = {:.0}",
+            n, C::NAME, ops, case.entry, limit
         ));
     }
     Outcome::held(true)
-        .ratio("ops/(64 n log2 n)".to_string(), ops / limit)
+        .ratio(format!("ops/(64 n log2 n) [{}]", C::NAME), ops / limit)
         .label(format!("len:{}", crate::gen::classify_len(n)))
         .label(format!("entry:{:?}", case.entry))
 }
